@@ -387,6 +387,33 @@ theorem merge_heap_independent (H1 H2 : Heap) {less : Less} (hm : newMerger cust
   · exact (drainS_mono H2 _ less n1 n2 _ _ hn1 h).symm
   · exact drainS_mono H2 _ less n2 n1 _ _ hn2 h
 
+/-- complete characterisation of the sorted modes: a list that is sorted by (less, input id), contains
+for every input exactly that input's records in that input's order, and nothing of any other id, IS the
+output — `merge_sorted_ties` and `merge_stable_per_input` leave no freedom -/
+theorem merge_is_the_stable_merge {less : Less} (hm : newMerger custom linkFn inputs = .ok m)
+    (hr : m.readAll H = (out, fin)) (hl : lessOf custom inputs = some less) (sw : StrictWeak less)
+    (hs : ∀ i s, (i, s) ∈ srcsOf inputs → SortedBy less (s.rest.map (relink (linksOf linkFn inputs) i)))
+    (spec : List (Nat × Rec)) (h1 : SortedBy (pairLess less) spec)
+    (h2 : ∀ i s, (i, s) ∈ srcsOf inputs →
+      spec.filter (fun p => p.1 == i) = tagged (linksOf linkFn inputs) i s.rest)
+    (h3 : ∀ p, p ∈ spec → ∃ s, (p.1, s) ∈ srcsOf inputs) : spec = out := by
+  refine sorted_stable_unique less spec out h1 (merge_sorted_ties H hm hr hl sw hs) ?_
+  intro i
+  by_cases hi : ∃ s, (i, s) ∈ srcsOf inputs
+  · obtain ⟨s, hs'⟩ := hi
+    rw [h2 i s hs', (merge_stable_per_input H hm hr i s hs').2 (Or.inl (by simp [hl]))]
+  · have e1 : spec.filter (fun p => p.1 == i) = [] := by
+      rw [List.filter_eq_nil_iff]
+      intro p hp hpi
+      obtain ⟨s, hs'⟩ := h3 p hp
+      exact hi ⟨s, by rw [← (beq_iff_eq.1 hpi)]; exact hs'⟩
+    have e2 : out.filter (fun p => p.1 == i) = [] := by
+      rw [List.filter_eq_nil_iff]
+      intro p hp hpi
+      obtain ⟨j, s, r, hmem, _, rfl⟩ := (mem_delivered _ _ p).1 (merge_nothing_else H hm hr p hp)
+      exact hi ⟨s, by rw [← (beq_iff_eq.1 hpi)]; exact hmem⟩
+    rw [e1, e2]
+
 /-- once Read has returned an error it returns the same error, and no record, on every later call -/
 theorem read_after_final (m m' : Merger) (t : Term) (h : m.read H = (.fin t, m')) :
     m'.read H = (.fin t, m') := read_fin_again H m m' t h
